@@ -10,7 +10,7 @@ import (
 const c03Rule = "generated histories (<= 40 events, 2..12 objects split over hosts and services, 2..3 timeperiods) on one peer: backend mutation of one object " +
 	"(check result: last_check and the change stamp move, strings and numbers get the new version; attribute change: scanned ints change, strings stay; " +
 	"running check: is_executing=1; silent change: no stamp at all), data.UpdateDelta(from, until) with explicit windows (mostly contiguous, some gaps/overlaps/from=0), " +
-	"periodicUpdate steps (due and not due), connection error at the start / after the status / hosts / services query, a command (ScheduleImmediateUpdate, forceFull), " +
+	"periodicUpdate steps (due and not due) and ResumeFromIdle steps whose window starts at the lastUpdate lmd itself stored, connection error at the start / after the status / hosts / services query, a command (ScheduleImmediateUpdate, forceFull), " +
 	"timeperiod flips and refreshes (with errors); the virtual clock advances by 0..70 s between events so that the 60 s full scan is due and not due; " +
 	"flavours: lmd_last_cache_update+last_update, last_update, last_check only, lmd_last_cache_update only x SyncIsExecuting on/off x UpdateOffset {1,3,5} x UpdateInterval {3,7}; " +
 	"one history per run has 150+ hosts whose acknowledgements only the full scan can find (timestamp filter cut at 149, second scan for the rest); " +
@@ -188,6 +188,13 @@ func (g *c03GenState) tick() {
 	g.in.Events = append(g.in.Events, ev)
 }
 
+// resume: ResumeFromIdle at the current clock; lastUpdate afterwards = now (up) or now - UpdateInterval (warning)
+func (g *c03GenState) resume() {
+	g.in.Events = append(g.in.Events, c03Event{Kind: "resume", Now: g.clock})
+	g.glu = g.clock
+	g.pending = map[int]bool{}
+}
+
 func c03NewObj(r *vRand, t0, ntp int) c03Obj {
 	lc := t0 - 1 - r.intn(300)
 	if r.chance(1, 6) {
@@ -252,8 +259,10 @@ func c03Gen(r *vRand, _ int) *c03Input {
 			g.mut()
 		case k < 68:
 			g.delta(false)
-		case k < 82:
+		case k < 79:
 			g.tick()
+		case k < 82:
+			g.resume()
 		case k < 85:
 			in.Events = append(in.Events, c03Event{Kind: "cmd"})
 			g.glu = 0
